@@ -276,10 +276,11 @@ func TestC05Mutations(t *testing.T) {
 				run(sw, "swap")
 			}
 		}
-		// every token replaced by a byte that is not valid UTF-8 and by a letter whose
-		// lower-case form has a different byte length (exhaustive per position)
+		// every token replaced by a byte that is not valid UTF-8, by a letter whose lower-case
+		// form has a different byte length, and by quoted strings that end in a backslash
+		// (exhaustive per position)
 		for i := range toks {
-			for _, h := range []string{"\xff", "İ"} {
+			for _, h := range []string{"\xff", "İ", "'a\\'", "\"b\\\""} {
 				rep := append([]string{}, toks...)
 				rep[i] = h
 				run(rep, "replace-nonutf8")
